@@ -43,7 +43,7 @@ def repo_dir():
     return os.path.abspath(os.environ.get("VERIF_REPO_DIR", "/repo"))
 
 
-def build(scratch, go=GO, tags="verif", out="harness.test"):
+def build(scratch, go=GO, tags="verif", out="harness.test", extra=()):
     """Compile the harness test binary against the current working tree of the repository."""
     mod = open(os.path.join(HARNESS, "go.mod")).read()
     mod = re.sub(r"replace github.com/takenet/lime-go => .*", "replace github.com/takenet/lime-go => " + repo_dir(), mod)
@@ -51,7 +51,7 @@ def build(scratch, go=GO, tags="verif", out="harness.test"):
     open(modfile, "w").write(mod)
     shutil.copy(os.path.join(HARNESS, "go.sum"), os.path.join(scratch, "go.sum"))
     binp = os.path.join(scratch, out)
-    cmd = [go, "test", "-c", "-tags", tags, "-vet=off", "-modfile=" + modfile, "-o", binp, "."]
+    cmd = [go, "test", "-c", "-tags", tags, "-vet=off", "-modfile=" + modfile] + list(extra) + ["-o", binp, "."]
     t0 = time.time()
     p = subprocess.run(cmd, cwd=HARNESS, env=go_env(), stdout=subprocess.PIPE, stderr=subprocess.STDOUT, text=True)
     if p.returncode != 0 or not os.path.exists(binp):
@@ -83,7 +83,7 @@ def sig_open(sig, known):
     return None
 
 
-LIME_FRAME = re.compile(r"github\.com/takenet/lime-go(\.|/)[^\s(]*")
+LIME_FRAME = re.compile(r"github\.com/takenet/lime-go(?:/chat)?\.((?:\(\*?\w+\)\.)?[\w.]+)")
 
 
 def crash_signature(prop, text):
@@ -100,10 +100,9 @@ def crash_signature(prop, text):
     # first lime frame after the panic line
     idx = text.find(m.group(1)) if m else 0
     for fm in LIME_FRAME.finditer(text[idx:]):
-        f = fm.group(0)
-        if "verif" in f.lower():
+        if "verif" in fm.group(0).lower():
             continue
-        fn = f.split("lime-go.")[-1]
+        fn = fm.group(1)
         break
     return "%s/crash/%s@%s" % (prop, re.sub(r"\s+", " ", msg)[:80], fn)
 
@@ -210,6 +209,51 @@ def merge_results(prop, cfg, outdir, shard_runs, known):
     return ev, inconclusive
 
 
+def run_native_fuzz(prop, job, tier, scratch, ev, inconclusive, known):
+    """Coverage-guided native fuzzing of one target with a fresh cache; time-boxed; first crasher stops it."""
+    secs = job["fuzztime"][0 if tier == "quick" else 1]
+    if secs <= 0:
+        return
+    binp, bt = build(scratch, out="fuzz.test", extra=["-fuzz", job["test"]])
+    if binp is None:
+        inconclusive.append("native fuzz build failed")
+        return
+    wd = os.path.join(scratch, "fuzzwd")
+    out = os.path.join(scratch, "fuzzout")
+    os.makedirs(wd, exist_ok=True)
+    os.makedirs(out, exist_ok=True)
+    env = dict(os.environ, VERIF_OUT=out, VERIF_KNOWN=KNOWN, VERIF_TIER=tier)
+    args = [binp, "-test.run", "^$", "-test.fuzz", "^" + job["test"] + "$", "-test.fuzztime", "%ds" % secs,
+            "-test.fuzzcachedir", os.path.join(scratch, "fuzzcache"), "-test.parallel", str(NCPU),
+            "-test.fuzzminimizetime", "20s", "-test.timeout", "%ds" % (secs + 300)]
+    t0 = time.time()
+    try:
+        p = subprocess.run(args, cwd=wd, env=env, stdout=subprocess.PIPE, stderr=subprocess.STDOUT, timeout=secs + 400)
+        text, rc = p.stdout.decode("utf-8", "replace"), p.returncode
+    except subprocess.TimeoutExpired as e:
+        text, rc = (e.stdout or b"").decode("utf-8", "replace"), -9
+    execs = [int(x) for x in re.findall(r"execs: (\d+)", text)]
+    n = max(execs) if execs else 0
+    ev["evaluations"] += n
+    ev["classes"]["origin=native-fuzz-execs"] = n
+    ev["per_job"][job["test"]] = {"evaluations": n, "shards": NCPU, "wall_s": round(time.time() - t0, 1), "fuzztime_s": secs,
+                                  "interesting": (re.findall(r"total: (\d+)\)", text) or ["0"])[-1]}
+    found = False
+    for f in sorted(glob.glob(os.path.join(out, "fuzzviol-*.json"))):
+        try:
+            v = json.load(open(f))
+        except Exception:
+            continue
+        found = True
+        v = {"sig": v["sig"], "detail": v["detail"], "case": v["case"], "count": 1, "test": job["test"]}
+        kind = "excluded" if sig_open(v["sig"], known) else "violations"
+        cur = ev[kind].get(v["sig"])
+        if cur is None or len(json.dumps(v["case"])) < len(json.dumps(cur["case"])):
+            ev[kind][v["sig"]] = v
+    if rc != 0 and not found:
+        inconclusive.append("native fuzz %s: exit %s\n%s" % (job["test"], rc, text[-2500:]))
+
+
 def write_evidence(prop, cfg, tier, seed, ev, wall, nviol, extra_assumptions=()):
     evdir = os.environ.get("VERIF_EVIDENCE_DIR") or os.path.join(HERE, "evidence")
     os.makedirs(evdir, exist_ok=True)
@@ -266,8 +310,13 @@ def do_check(prop, tier, seed, replay=None, quiet=False):
                 j.setdefault("env", {})
                 j["env"] = dict(j["env"], VERIF_REPLAY=os.path.abspath(replay))
         tasks = []
+        fuzz_jobs = []
         for ji, job in enumerate(jobs):
             if tier == "quick" and job.get("thorough_only"):
+                continue
+            if job.get("kind") == "fuzz":
+                if not replay:
+                    fuzz_jobs.append(job)
                 continue
             n = job.get("shards", 1)
             if isinstance(n, (tuple, list)):
@@ -282,6 +331,8 @@ def do_check(prop, tier, seed, replay=None, quiet=False):
             for f in futs:
                 runs.append(f.result())
         ev, inconclusive = merge_results(prop, cfg, outdir, runs, known)
+        for job in fuzz_jobs:
+            run_native_fuzz(prop, job, tier, scratch, ev, inconclusive, known)
         # post-processing hooks (e.g. native fuzzing) may add to ev
         for hook in cfg.get("post", []):
             hook(prop, tier, seed, scratch, ev, inconclusive, known)
